@@ -7,11 +7,14 @@ from framework.registry import target, job, PROPS, COMMON_ASSUME
 # ---------------------------------------------------------------------------
 target('c15', ['harness/c15_reuse.cpp'])
 
+# Watchdogs: every solve in these harnesses is bounded by maxiter; a call that never returns violates the iteration-bound /
+# reuse clauses, so a hang that reproduces on the retry is attributed to the open case and reported (key hang:<sub>).
+# Quick jobs take < 60 s each on a loaded machine: the quick watchdogs are >= 30x that.
 def c15_jobs(tier):
     q = tier == 'quick'
-    return [job('reuse-plain', 'c15', 'plain', threads=1, shards=4 if q else 12, timeout=7200),
+    return [job('reuse-plain', 'c15', 'plain', threads=1, shards=4 if q else 12, timeout=1800 if q else 7200, hang_is_violation=True),
             # asan: asserts live, LeakSanitizer on (exceptions thrown in the middle of a solve must not leak), same scripts, every 5th / 17th history
-            job('reuse-asan',  'c15', 'asan',  threads=1, shards=6 if q else 12, timeout=14400, args=['--stride=5'] if q else ['--stride=17'])]   # strides coprime with the shard counts (cases are sharded by idx % shards)
+            job('reuse-asan',  'c15', 'asan',  threads=1, shards=6 if q else 12, timeout=2700 if q else 14400, hang_is_violation=True, args=['--stride=5'] if q else ['--stride=17'])]   # strides coprime with the shard counts (cases are sharded by idx % shards)
 
 # Oracle strength notes:
 #  * "fresh object" = same constructor arguments; after a rebuild step the fresh object is rebuilt with the *latest* matrix only (a rebuild
